@@ -66,3 +66,83 @@ def snapshot(ws, skip=('patches', 'series'), meta=False):
 def crashed(rc):
     """Exit statuses that mean the tool crashed rather than failed cleanly."""
     return rc not in (0, 1)
+
+
+# ---------------------------------------------------------------------------------------------
+# strace recorder for the unmodified binary (no hooks involved)
+import re as _re
+
+_WRITE_CALLS = ('unlink', 'unlinkat', 'mkdir', 'mkdirat', 'rmdir', 'rename', 'renameat', 'renameat2', 'chmod', 'fchmod', 'fchmodat',
+                'utimensat', 'utime', 'utimes', 'truncate', 'ftruncate', 'link', 'linkat', 'symlink', 'symlinkat', 'mknod', 'mknodat',
+                'chown', 'fchown', 'lchown', 'fchownat', 'setxattr', 'fsetxattr')
+_LINE = _re.compile(r'^(\d+)\s+(\w+)\((.*)\)\s+=\s+(-?\d+|\?)(.*)$')
+
+
+def strace_push(ws_dir, args, env=None, timeout=120, inject=None, binary=None):
+    """Run the binary under strace -f -y.  Returns (rc, stderr, events); an event is a dict
+    {call, path, fd_path, flags, ret, err, write (bool: a write-class operation)}.  Paths are as the process
+    gave them (relative to cwd = workspace, or absolute)."""
+    out = os.path.join(ws_dir, '..', os.path.basename(ws_dir) + '.strace')
+    cmd = ['strace', '-f', '-y', '-qq', '-o', out, '-e',
+           'trace=open,openat,creat,write,pwrite64,writev,' + ','.join(_WRITE_CALLS)]
+    if inject:
+        cmd += ['-e', 'inject=' + inject]
+    e = dict(ENV)
+    if env:
+        e.update(env)
+    try:
+        p = subprocess.run(cmd + [binary or vlib.BIN, 'push'] + [str(a) for a in args], cwd=ws_dir, env=e,
+                           stdout=subprocess.PIPE, stderr=subprocess.PIPE, timeout=timeout)
+        rc, se = p.returncode, p.stderr.decode('utf-8', 'replace')
+    except subprocess.TimeoutExpired:
+        rc, se = -999, 'TIMEOUT'
+    events = []
+    try:
+        with open(out, errors='replace') as f:
+            for line in f:
+                m = _LINE.match(line.rstrip('\n'))
+                if not m:
+                    continue
+                pid, call, argstr, ret, rest = m.groups()
+                ev = {'pid': int(pid), 'call': call, 'args': argstr, 'ret': int(ret) if ret != '?' else None, 'err': rest.strip(), 'write': False, 'path': None}
+                if call in ('open', 'openat', 'creat'):
+                    pm = _re.search(r'"((?:[^"\\]|\\.)*)"', argstr)
+                    ev['path'] = pm.group(1) if pm else None
+                    flags = argstr
+                    if call == 'creat' or _re.search(r'O_WRONLY|O_RDWR|O_CREAT|O_TRUNC|O_APPEND', flags):
+                        ev['write'] = True
+                        ev['trunc'] = 'O_TRUNC' in flags or call == 'creat'
+                        ev['creat'] = 'O_CREAT' in flags or call == 'creat'
+                elif call in ('write', 'pwrite64', 'writev'):
+                    fm = _re.match(r'(\d+)<([^>]*)>', argstr)
+                    if fm:
+                        ev['fd'] = int(fm.group(1)); ev['path'] = fm.group(2)
+                        # stdout / stderr (pipes) are not outputs of the push
+                        ev['write'] = ev['fd'] > 2 and not ev['path'].startswith(('pipe:', 'socket:', 'anon_inode:', '/dev/'))
+                    lm = _re.search(r',\s*(\d+)$', argstr)
+                    ev['len'] = int(lm.group(1)) if lm else None
+                elif call in _WRITE_CALLS:
+                    pm = _re.search(r'"((?:[^"\\]|\\.)*)"', argstr)
+                    fm = _re.match(r'(\d+)<([^>]*)>', argstr)
+                    ev['path'] = pm.group(1) if pm else (fm.group(2) if fm else None)
+                    ev['write'] = True
+                events.append(ev)
+    except OSError:
+        pass
+    try:
+        os.unlink(out)
+    except OSError:
+        pass
+    return rc, se, events
+
+
+def under(ws_dir, path):
+    """Is `path` (as seen by a process whose cwd is ws_dir) inside the workspace?  Returns the workspace-relative
+    path or None."""
+    if path is None:
+        return None
+    full = os.path.normpath(path if os.path.isabs(path) else os.path.join(ws_dir, path))
+    root = os.path.normpath(ws_dir)
+    if full == root or full.startswith(root + os.sep):
+        return os.path.relpath(full, root)
+    return None
